@@ -23,7 +23,7 @@
 (* operators are total, like the code.  DEV_* constants name the places    *)
 (* where the code as built departs from the listed properties.             *)
 (***************************************************************************)
-EXTENDS AccessMode, Integers, SequencesExt
+EXTENDS AccessMode, Ranges, Integers, SequencesExt
 
 CONSTANTS Users,        \* abstract user names, e.g. {"u1","u2","u3"}
           Sessions,     \* abstract session names
@@ -52,6 +52,7 @@ InitState ==
   [topics |-> [t \in Topics |-> NoTopic],
    subs   |-> [t \in Topics |-> [u \in Users |-> NoSub]],
    msgs   |-> [t \in Topics |-> <<>>],
+   dlog   |-> [t \in Topics |-> <<>>],
    cache  |-> [t \in Topics |-> Unloaded],
    sess   |-> [s \in Sessions |-> [live |-> TRUE, subs |-> <<>>]]]
 
@@ -117,6 +118,11 @@ Attach(S, t, s) ==
   [S EXCEPT !.cache[t].att = AttTuple(M(@) \cup {[s |-> s, u |-> u, chan |-> FALSE]}),
             !.cache[t].per[u].online = @ + 1,
             !.sess[s].subs = SubsTuple(M(@) \cup {t})]
+
+\* adapter SubsDelete: soft-deletes the row and drops the user's own soft-deletion log for the topic
+UnsubRow(S, t, u) ==
+  [S EXCEPT !.subs[t][u].st = "del",
+            !.dlog[t] = SelectSeq(@, LAMBDA r : r["for"] # u)]
 
 \* ---------------------------------------------------------------- NewGrp
 \* {sub topic="new..."}: initTopicNewGrp + store.Topics.Create + first registerSession
@@ -221,8 +227,7 @@ LeaveStep(S, a) ==
   ELSE IF ~a.unsub THEN Reply(Detach(S, t, s), 200)
   ELSE IF c.owner = u THEN Reply(S, 403)                            \* owner cannot unsubscribe
   ELSE IF S.subs[t][u].st # "live" THEN Reply(S, 304)               \* ErrNotFound from the store: InfoNoAction
-  ELSE LET S1 == [S EXCEPT !.subs[t][u].st = "del"] IN
-       Reply(Evict(S1, t, u, TRUE), 200)
+  ELSE Reply(Evict(UnsubRow(S, t, u), t, u, TRUE), 200)
 
 \* ---------------------------------------------------------------- {set sub} by the user for themselves, session attached
 SetSelfStep(S, a) ==
@@ -293,8 +298,7 @@ DelSubStep(S, a) ==
   ELSE IF ~IsAdmin(Eff(c.per[u])) \/ x = u THEN Reply(S, 403)
   ELSE IF ~c.per[x].in THEN Reply(S, 304)
   ELSE IF "O" \in Eff(c.per[x]) \/ "J" \notin M(c.per[x].want) THEN Reply(S, 403)
-  ELSE LET S1 == [S EXCEPT !.subs[t][x].st = "del"] IN
-       Reply(Evict(S1, t, x, TRUE), IF S.subs[t][x].st = "live" THEN 200 ELSE 304)
+  ELSE Reply(Evict(IF S.subs[t][x].st = "live" THEN UnsubRow(S, t, x) ELSE S, t, x, TRUE), IF S.subs[t][x].st = "live" THEN 200 ELSE 304)
 
 \* ---------------------------------------------------------------- {del what=topic}
 \* hub.topicUnreg: owner of a loaded topic deletes it for everybody; anybody else on a loaded topic = leave+unsub;
@@ -303,6 +307,7 @@ DeleteTopic(S, t) ==
   [S EXCEPT !.topics[t] = NoTopic,
             !.subs[t] = [u \in Users |-> NoSub],
             !.msgs[t] = <<>>,
+            !.dlog[t] = <<>>,
             !.cache[t] = Unloaded,
             !.sess = [x \in Sessions |-> [S.sess[x] EXCEPT !.subs = SubsTuple(M(@) \ {t})]]]
 
@@ -312,12 +317,12 @@ DelTopicStep(S, a) ==
   ELSE IF c.loaded THEN
      IF c.owner = u THEN Reply(DeleteTopic(S, t), 200)
      ELSE IF S.subs[t][u].st # "live" THEN Reply(S, 304)
-     ELSE Reply(Evict([S EXCEPT !.subs[t][u].st = "del"], t, u, TRUE), 200)
+     ELSE Reply(Evict(UnsubRow(S, t, u), t, u, TRUE), 200)
   ELSE
      LET row == S.subs[t][u] IN
      IF row.st # "live" THEN Reply(S, IF \E v \in Users : S.subs[t][v].st = "live" THEN 403 ELSE 304)
      ELSE IF "O" \in Eff(row) THEN Reply(DeleteTopic(S, t), 200)
-     ELSE Reply([S EXCEPT !.subs[t][u].st = "del"], 200)
+     ELSE Reply(UnsubRow(S, t, u), 200)
 
 \* ---------------------------------------------------------------- {set desc: defacs.auth, public} on an attached group topic
 SetDescStep(S, a) ==
@@ -355,6 +360,32 @@ PubStep(S, a) ==
            pushTo == {v \in Users : c.per[v].in /\ {"P", "R"} \subseteq Eff(c.per[v]) /\ ~c.per[v].deleted /\ ~c.per[v].ischan}
        IN [st |-> S1, out |-> [code |-> 202, dataTo |-> dataTo, pushTo |-> pushTo, seq |-> n]]
 
+\* ---------------------------------------------------------------- {del what=msg delseq=[...] hard=b}   (replyDelMsg + store.Messages.DeleteList)
+RangeRec(p) == [low |-> p[1], hi |-> p[2]]
+DelMsgStep(S, a) ==
+  LET t == a.t  s == a.s  u == SessUser[s]  c == S.cache[t] IN
+  IF t \notin M(S.sess[s].subs) THEN Reply(S, 409)
+  ELSE LET mode == Eff(c.per[u])
+           hard == a.hard /\ "D" \in mode
+           clipped == [i \in DOMAIN a.ranges |-> Clip(a.ranges[i][1], a.ranges[i][2], c.last)]
+       IN IF "D" \notin mode /\ "R" \notin mode THEN Reply(S, 403)
+          ELSE IF a.ranges = <<>> \/ \E i \in DOMAIN clipped : ~clipped[i].ok THEN Reply(S, 400)
+          ELSE LET rs == Normalize(SortSeq([i \in DOMAIN clipped |-> clipped[i].r], LAMBDA x, y : Less(x, y) /\ x # y))
+                   ids == Union(rs)
+                   n == c.del + 1
+                   who == IF hard THEN "all" ELSE u
+                   rows == [i \in DOMAIN rs |-> [delId |-> n, for |-> who, low |-> rs[i].low, hi |-> Hi(rs[i])]]
+                   S1 == [S EXCEPT !.dlog[t] = @ \o rows,
+                                   !.msgs[t] = [i \in DOMAIN @ |-> IF hard /\ @[i].seq \in ids /\ @[i].delId = 0
+                                                                     THEN [@[i] EXCEPT !.delId = n, !.content = "null"] ELSE @[i]],
+                                   !.topics[t].delId = n,
+                                   !.subs[t] = [v \in Users |-> IF S.subs[t][v].st # "none" /\ (hard \/ v = u)
+                                                                  THEN [S.subs[t][v] EXCEPT !.delId = n] ELSE S.subs[t][v]],
+                                   !.cache[t].del = n,
+                                   !.cache[t].per = [v \in Users |-> IF c.per[v].in /\ (hard \/ v = u)
+                                                                      THEN [c.per[v] EXCEPT !.delId = n] ELSE c.per[v]]]
+               IN [st |-> S1, out |-> [code |-> 200, dataTo |-> {}, pushTo |-> {}, seq |-> n]]
+
 \* ---------------------------------------------------------------- {note what=read|recv seq=N}
 NoteStep(S, a) ==
   LET t == a.t  s == a.s  u == SessUser[s]  c == S.cache[t] IN
@@ -388,7 +419,7 @@ DisconnectStep(S, a) ==
   IN Reply([S1 EXCEPT !.sess[s] = [live |-> FALSE, subs |-> <<>>]], 0)
 
 \* ---------------------------------------------------------------- observation requests: no state change
-GetStep(S, a) == Reply(S, IF a.t \in M(S.sess[a.s].subs) THEN 200 ELSE 0)
+GetStep(S, a) == Reply(S, -2)     \* -2: the reply of an observation request is not predicted (its content is judged by the monitors)
 
 Step(S, a) ==
   CASE a.a = "NewGrp"     -> NewGrpStep(S, a)
@@ -399,6 +430,7 @@ Step(S, a) ==
     [] a.a = "DelSub"     -> DelSubStep(S, a)
     [] a.a = "DelTopic"   -> DelTopicStep(S, a)
     [] a.a = "SetDesc"    -> SetDescStep(S, a)
+    [] a.a = "DelMsg"     -> DelMsgStep(S, a)
     [] a.a = "Pub"        -> PubStep(S, a)
     [] a.a = "Note"       -> NoteStep(S, a)
     [] a.a = "Unload"     -> UnloadStep(S, a)
@@ -406,5 +438,5 @@ Step(S, a) ==
     [] a.a = "Get"        -> GetStep(S, a)
     [] OTHER              -> Reply(S, 0)
 
-Modelled(a) == a.a \in {"DelTopic", "SetDesc", "NewGrp", "Sub", "Leave", "SetSelf", "SetOther", "DelSub", "Pub", "Note", "Unload", "Disconnect", "Get"}
+Modelled(a) == a.a \in {"DelMsg", "DelTopic", "SetDesc", "NewGrp", "Sub", "Leave", "SetSelf", "SetOther", "DelSub", "Pub", "Note", "Unload", "Disconnect", "Get"}
 =============================================================================
